@@ -24,7 +24,7 @@ def expected_models(b, names):
         nm = names[m['model'] - 1]
         chi = float(frac(m['chi'])) if not m['big'] else m['big'] * 1e30
         out[nm] = {'chi': chi, 'av': float(frac(m['u'])) / 4.0, 'sc': float(frac(m['v'])) / 40.0,
-                   'par': [float(x) for x in m['par']], 'extra': 1000.0 + m['model']}
+                   'par': [float(x) for x in m['par']], 'extra': 1000.0 + m['model'], 'zeta': 1000.0 + m['model'], 'alpha': 7.0 * m['model']}
     return out
 
 
@@ -51,9 +51,15 @@ def check_rows(rows, exp, b, names, what):
         e = exp[nm]
         if not close3(chi, e['chi']) or not close3(av, e['av']) or not close3(sc, e['sc']):
             return '%s row %d (%s): chi2/av/scale %r, the fit of that model is %r' % (what, i + 1, nm, (chi, av, sc), (e['chi'], e['av'], e['sc']))
-        want = e['par'] + ([e['extra']] if len(pars) > len(e['par']) else [])
-        if len(pars) != len(want) or any(not close3(p, w) for p, w in zip(pars, want)):
-            return '%s row %d (%s): parameters %r, the parameter file has %r for that model' % (what, i + 1, nm, pars, want)
+        if isinstance(pars, dict):
+            want = {'par1': e['par'][0], 'par2': e['par'][1]}
+            want.update({k_: e[k_] for k_ in pars if k_ in ('zeta', 'alpha')})
+            if set(pars) != set(want) or any(not close3(pars[k_], want[k_]) for k_ in want):
+                return '%s row %d (%s): columns %r, that model has %r' % (what, i + 1, nm, pars, want)
+        else:
+            want = e['par']
+            if len(pars) != len(want) or any(not close3(p, w) for p, w in zip(pars, want)):
+                return '%s row %d (%s): parameters %r, the parameter file has %r for that model' % (what, i + 1, nm, pars, want)
         if chi < prev - 1e-3 * max(1.0, abs(prev)):
             return '%s rows are not in order of chi2' % what
         prev = chi
@@ -105,7 +111,7 @@ def replay_chunk(items, hdr, root, seed):
                 inp = p
             else:
                 inp = info if form == 'obj' else [info]
-            additional = {'extra': {n_: 1000.0 + (i + 1) for i, n_ in enumerate(names)}} if bi % 4 == 0 else {}
+            additional = {} if bi % 2 else {'zeta': {n_: 1000.0 + (i + 1) for i, n_ in enumerate(names)}, 'alpha': {n_: 7.0 * (i + 1) for i, n_ in enumerate(names)}}
             desc = {'behaviour': b, 'table_row_order': [names[i] for i in perm], 'form': form, 'selector': csel, 'additional': bool(additional)}
             bad = None
             try:
@@ -113,12 +119,14 @@ def replay_chunk(items, hdr, root, seed):
                     # --- write_parameters
                     p1 = w.path('wp')
                     write_parameters(inp, p1, select_format=csel, additional=additional)
-                    lines = open(p1).read().splitlines()[3:]
+                    alll = open(p1).read().splitlines()
+                    colnames = alll[1].split()[5:]                 # second header line: fit_id model_name chi2 av scale <parameters...>
+                    lines = alll[3:]
                     head = lines[0].split() if lines else []
                     rows = []
                     for ln in lines[1:]:
                         tk = ln.split()
-                        rows.append((tk[1], float(tk[2]), float(tk[3]), float(tk[4]), [float(x) for x in tk[5:]]))
+                        rows.append((tk[1], float(tk[2]), float(tk[3]), float(tk[4]), dict(zip(colnames, [float(x) for x in tk[5:]]))))
                     if not head or head[0] != src.name or int(head[1]) != b['nd'] or int(head[2]) != len(rows):
                         bad = 'write_parameters header %r: expected source %s, n_data %d, n_fits = number of rows listed (%d)' % (head, src.name, b['nd'], len(rows))
                     bad = bad or check_rows(rows, exp, b, names, 'write_parameters')
@@ -150,10 +158,10 @@ def replay_chunk(items, hdr, root, seed):
                         else:
                             vals = [float(x) for x in ln[3:]]
                             kept = [names[m - 1] for m in b['ranking'][:n]]
-                            quantities = [('chi', lambda e: e['chi']), ('av', lambda e: e['av']), ('sc', lambda e: e['sc']),
-                                          ('par1', lambda e: e['par'][0]), ('par2', lambda e: e['par'][1])]
-                            if additional:
-                                quantities.append(('extra', lambda e: e['extra']))
+                            getters = {'chi2': lambda e: e['chi'], 'av': lambda e: e['av'], 'scale': lambda e: e['sc'],
+                                       'par1': lambda e: e['par'][0], 'par2': lambda e: e['par'][1], 'zeta': lambda e: e['zeta'], 'alpha': lambda e: e['alpha']}
+                            hdr_names = open(p3).read().splitlines()[0].split()      # first header line names the quantities, in column order
+                            quantities = [('chi' if q_ == 'chi2' else q_, getters[q_]) for q_ in hdr_names if q_ in getters]
                             if len(vals) != 3 * len(quantities):
                                 bad = 'write_parameter_ranges: %d numbers, expected %d' % (len(vals), 3 * len(quantities))
                             tie_top = n >= 1 and len(b['ranking']) > 1 and abs(exp[names[b['ranking'][0] - 1]]['chi'] - exp[names[b['ranking'][1] - 1]]['chi']) < 1e-12
@@ -181,7 +189,7 @@ def replay_chunk(items, hdr, root, seed):
                         for i in range(len(info2.chi2)):
                             nm_ = str(info2.model_name[i]).strip()
                             if str(ts['MODEL_NAME'][i]).strip() != nm_ or not close3(float(ts['par1'][i]), exp[nm_]['par'][0]) or \
-                               not close3(float(ts['par2'][i]), exp[nm_]['par'][1]) or (additional and not close3(float(ts['extra'][i]), exp[nm_]['extra'])):
+                               not close3(float(ts['par2'][i]), exp[nm_]['par'][1]) or (additional and not (close3(float(ts['zeta'][i]), exp[nm_]['zeta']) and close3(float(ts['alpha'][i]), exp[nm_]['alpha']))):
                                 bad = 'filter_table row %d is %r for fit of %s' % (i, tuple(ts[i]), nm_)
                                 break
             except Exception as e:
